@@ -166,8 +166,17 @@ func parserFor(proto string) (unmarshal.ParsingFunction, context.Context) {
 // bodyFor renders one stream with the given ordered label list in the protocol (snappy
 // framing is undone: the exported parsers receive what the middleware hands them).
 func bodyFor(c *run.Ctx, proto string, labels [][2]string, i int) []byte {
+	return bodyForN(c, proto, labels, i, 1)
+}
+
+// bodyForN: one stream with n entries (the parsers hand a long stream on in several calls / chunks).
+func bodyForN(c *run.Ctx, proto string, labels [][2]string, i, n int) []byte {
 	r := c.Rng(fmt.Sprintf("c04/body/%d/%s", i, proto))
-	lc := gen.LogCase{Streams: []gen.Stream{{SID: "x", Labels: labels, Entries: []gen.Entry{{TsNs: 1700000000000000000, Line: "l", HasLine: proto != "remote-write", HasValue: proto == "remote-write", Value: 1}}}}}
+	es := make([]gen.Entry, n)
+	for k := range es {
+		es[k] = gen.Entry{TsNs: 1700000000000000000 + int64(k)*1000000, Line: "l", HasLine: proto != "remote-write", HasValue: proto == "remote-write", Value: 1}
+	}
+	lc := gen.LogCase{Streams: []gen.Stream{{SID: "x", Labels: labels, Entries: es}}}
 	rq := gen.Render(r, proto, lc)
 	if proto == "loki-proto" || proto == "remote-write" {
 		b, err := gen.Unsnappy(rq.Body)
@@ -205,14 +214,33 @@ func childFP(c *run.Ctx, cfg childCfg) {
 			}
 			labels = append(labels, [2]string{names[perm[j]], v})
 		}
-		// a near-duplicate: swap values between two labels / move a byte between name-adjacent values
+		// the reserved label __ttl_days__ (sets the rows' retention, is not part of the series) at any position of
+		// the list, for one set in six; one set in twelve is pushed as a long stream (2500 entries: remote write is
+		// handed on every 1000 samples, the Loki parsers cut chunks) whose rows must all belong to one series
+		ttlAt := -1
+		if i%6 == 1 {
+			ttlAt = r.Intn(len(labels) + 1)
+		}
+		entries := 1
+		if i%12 == 1 || i%12 == 8 {
+			entries = 2500
+		}
+		withTTL := func(ls [][2]string) [][2]string {
+			if ttlAt < 0 {
+				return ls
+			}
+			at := min(ttlAt, len(ls))
+			out := append([][2]string{}, ls[:at]...)
+			out = append(out, [2]string{"__ttl_days__", "7"})
+			return append(out, ls[at:]...)
+		}
 		canon := canonical(labels)
 		var ref uint64
 		var refDoc string
 		protosUsed := 0
 		for pi, proto := range fpProtos {
-			if i%len(fpProtos) != pi && pi != 0 {
-				continue // every set goes through Loki JSON and one more protocol
+			if i%len(fpProtos) != pi && pi != 0 && !(entries > 1 && proto == "remote-write") {
+				continue // every set goes through Loki JSON and one more protocol (long streams: remote write as well)
 			}
 			for rep := 0; rep < 2; rep++ {
 				ls := append([][2]string{}, labels...)
@@ -220,7 +248,28 @@ func childFP(c *run.Ctx, cfg childCfg) {
 					r.Shuffle(len(ls), func(a, b int) { ls[a], ls[b] = ls[b], ls[a] })
 				}
 				fn, ctx := parserFor(proto)
-				p := runParser(fn, ctx, bodyFor(c, proto, ls, i))
+				p := runParser(fn, ctx, bodyForN(c, proto, withTTL(ls), i, entries))
+				if ttlAt >= 0 {
+					c.Floor("label sets carrying the reserved retention label", 0, 1)
+				}
+				if entries > 1 && p.err == nil && len(p.fps) > 0 {
+					c.Floor("long streams (2500 entries) fingerprinted", 0, 1)
+					docSet := func(d string) string {
+						if m, err := gen.StrictJSONStringMap([]byte(d)); err == nil {
+							return canonicalMap(m)
+						}
+						return "not JSON: " + d
+					}
+					for k := range p.fps {
+						// the documents may list the keys in another order (OTLP builds them per record); what they
+						// decode to must be one set
+						if p.fps[k] != p.fps[0] || (p.docs[k] != p.docs[0] && docSet(p.docs[k]) != docSet(p.docs[0])) {
+							c.Violation("fingerprint-depends-on-position-in-request", fmt.Sprintf("label set %s pushed as one stream of %d entries via %s: series row %d has fingerprint %d and document %q, row 0 has %d and %q",
+								canon, entries, proto, k, p.fps[k], p.docs[k], p.fps[0], p.docs[0]), map[string]any{"labels": withTTL(ls), "proto": proto, "fp_type": cfg.FPType, "entries": entries})
+							break
+						}
+					}
+				}
 				if p.err != nil || len(p.fps) == 0 {
 					c.Violation("parser-rejects/"+proto, fmt.Sprintf("well-formed one-stream %s body rejected: %v", proto, p.err), map[string]any{"labels": ls, "fp_type": cfg.FPType})
 					continue
